@@ -108,3 +108,36 @@ def trajectory (I : Interp) (c : Circuit) (extAt : Nat → Path → List Rat) (f
     pure (σ :: rest)
 
 end PyRates.Net
+
+namespace PyRates.Net
+
+/-- an edge with a discrete delay of `delay ≥ 1` integration steps -/
+structure DEdge where
+  src : Path
+  tgt : Path
+  weight : Rat
+  delay : Nat
+deriving Repr
+
+/-- trajectory of a network with discretely delayed edges (C09's specification): during step `k` a delayed edge delivers
+`weight × (value of its source variable at step k − delay)`, and `0` before the simulation started; undelayed edges are ordinary
+edges of `c`.  `hist` holds the value tables of the previous steps, newest first. -/
+def trajectoryD (I : Interp) (c : Circuit) (des : List DEdge) (extAt : Nat → Path → List Rat) (fuel : Nat) (heun : Bool) (dt : Rat) :
+    (steps k : Nat) → (σ : List (Path × Rat)) → (hist : List (List (Path × Rat))) → Option (List (List (Path × Rat)))
+  | 0, _, _, _ => some []
+  | n + 1, k, σ, hist => do
+    let ext : Path → List Rat := fun p =>
+      extAt k p ++ (des.filter (fun e => e.tgt == p)).map (fun e =>
+        match hist[e.delay - 1]? with
+        | some tbl => e.weight * tableLookup tbl e.src
+        | none => 0)
+    let (tbl, k1) ← solve I c ext (tableLookup σ) fuel
+    let σ1 := σ.map (fun (p, v) => (p, v + dt * tableLookup k1 p))
+    let σ' ← if heun then do
+        let (_, k2) ← solve I c ext (tableLookup σ1) fuel
+        pure (σ.map (fun (p, v) => (p, v + dt / 2 * (tableLookup k1 p + tableLookup k2 p))))
+      else pure σ1
+    let rest ← trajectoryD I c des extAt fuel heun dt n (k + 1) σ' (tbl :: hist)
+    pure (σ :: rest)
+
+end PyRates.Net
